@@ -193,6 +193,23 @@ impl MoveGen {
     }
 }
 
+/// Read-only projections used by the external verification harness.
+#[cfg(rustyyato_chess_verif)]
+impl MoveGen {
+    /// (source, destinations, promotion) of every entry, in list order
+    pub fn verif_entries(&self) -> Vec<(Pos, BitBoard, bool)> {
+        self.moves
+            .iter()
+            .map(|entry| (entry.src, entry.moves, entry.promotion))
+            .collect()
+    }
+
+    /// (entry cursor, promotion pieces left for the destination in progress, mask)
+    pub fn verif_cursor(&self) -> (usize, usize, BitBoard) {
+        (self.index, self.promotions.len(), self.mask)
+    }
+}
+
 impl ExactSizeIterator for MoveGen {}
 impl Iterator for MoveGen {
     type Item = ChessMove;
